@@ -198,6 +198,27 @@ fn one<FF: Elem>(op: &str, g: &[Vec<String>]) -> Option<String> {
                 &vals, off, &modulus, &pre,
             ))
         }
+        // extrap_lowdeg f <offset> <log2 n> | <low-degree polynomial> | <points>
+        // the codeword is the polynomial's values on the coset {offset * w^i} (computed here by Horner, independent of the
+        // routines under test); extrapolating it must give the polynomial's values at the points. Cheap for n up to 2^20.
+        "extrap_lowdeg" => {
+            let off = bfe(0, 0);
+            let logn = n(0, 1);
+            let len = 1usize << logn;
+            let w = <BFieldElement as twenty_first::math::traits::PrimitiveRootOfUnity>::primitive_root_of_unity(len as u64).unwrap();
+            let coeffs = es(1);
+            let mut cw: Vec<FF> = Vec::with_capacity(len);
+            let mut x = off;
+            for _ in 0..len {
+                let mut acc = FF::ZERO;
+                for c in coeffs.iter().rev() {
+                    acc = acc * x + *c;
+                }
+                cw.push(acc);
+                x *= w;
+            }
+            show_list(&P::<FF>::coset_extrapolate(off, &cw, &es(2)))
+        }
         // coset_extrapolate f <offset> | <codeword> | <points>
         "coset_extrapolate" => show_list(&P::<FF>::coset_extrapolate(bfe(0, 0), &es(1), &es(2))),
         // batch_coset_extrapolate f <offset> <codeword_length> | <codewords> | <points>
